@@ -1122,6 +1122,21 @@ distinct = (generator, outcome class, version, clipped counts) and (map accessor
             bases.push((s, b, lay));
         }
     }
+    // large item areas: header + tables + items well beyond 8 KiB (the file-backed reader must cope with reads
+    // that are served in pieces), one big item / many small items / both
+    for version in [3, 4] {
+        for shape in 0..3 {
+            let items = match shape {
+                0 => gen_items(&mut r, 2, 1, 3500),
+                1 => gen_items(&mut r, 6, 400, 2),
+                _ => { let mut v = gen_items(&mut r, 3, 300, 3); v.extend(gen_items(&mut r, 1, 1, 4000)); v.sort_by_key(|i| i.type_id); v.dedup_by_key(|i| (i.type_id, i.id)); v }
+            };
+            let datas = gen_datas(&mut r, 3, 9000);
+            let s = mk_spec(version, false, items, datas, &mut r);
+            let (b, _) = do_ser(&mut c, &s);
+            do_open(&mut c, &b, Some(&s), &mut r, "wellformed-large");
+        }
+    }
     // the smallest files
     for version in [3, 4] {
         for crude in [false, true] {
